@@ -47,7 +47,7 @@ func max(a, b int) int {
 	return b
 }
 
-var printables = []string{"a", "b", "Z", " ", "~", "é", "宽", "世", "😀", "é", "́", "👩‍🚀", "❤️", "🇺🇸", "q", "x", "\x7f"}
+var printables = []string{"a", "b", "Z", " ", "~", "é", "宽", "世", "😀", "e\u0301", "́", "👩‍🚀", "❤️", "🇺🇸", "q", "x", "\x7f"}
 
 var csiOneParam = []string{"@", "A", "B", "C", "D", "E", "F", "G", "I", "J", "K", "L", "M", "P", "S", "T", "X", "Z", "`", "a", "b", "d", "e", "g", "n", " q"}
 
